@@ -31,7 +31,56 @@ KINDS = ['bag_cycle', 'add_leaf', 'delete_reissued', 'add', 'add_dup', 'add_exis
          'combo', 'plain']
 
 
+def run_deep_move(spec):
+    """A _move whose source is a path of two keys: the subtree is detached from src/g/k and attached - values,
+    process and wiring intact - under the target store at the same relative path; its sibling stays."""
+    from vivarium.core.engine import Engine
+    from vivarium.core.process import Process
+    V = Viol()
+
+    class Cell(Process):
+        def ports_schema(self):
+            return {'S': {'n': {'_default': 0, '_emit': True}}}
+
+        def calculate_timestep(self, states):
+            return spec['ts']
+
+        def next_update(self, timestep, states):
+            return {'S': {'n': 1}}
+
+    class Mover(Process):
+        def ports_schema(self):
+            return {'src': {'*': {'*': {}}}, 'dst': {'*': {}}, 'clk': {'_default': 0.0}}
+
+        def next_update(self, timestep, states):
+            upd = {'clk': timestep}
+            if states['clk'] == spec['at']:
+                upd['src'] = {'_move': [{'source': ('g1', 'a'), 'target': 'dst'}]}
+            return upd
+    try:
+        e = Engine(processes={'mover': Mover({'timestep': 1.0}), 'src': {'g1': {'a': {'cell': Cell()}, 'b': {'cell': Cell()}}}},
+                   topology={'mover': {'src': ('src',), 'dst': ('dst',), 'clk': ('clk',)},
+                             'src': {'g1': {'a': {'cell': {'S': ('st',)}}, 'b': {'cell': {'S': ('st',)}}}}},
+                   initial_state={'dst': {'keep': {'v': 7}} if spec['occupied'] else {}}, display_info=False)
+        e.update(spec['run'])
+        data = e.emitter.get_data()
+        last = data[max(data)]
+        ticks = int(spec['run'] / spec['ts'])
+        moved = last.get('dst', {}).get('g1', {}).get('a', {}).get('st', {}).get('n')
+        stayed = last.get('src', {}).get('g1', {}).get('b', {}).get('st', {}).get('n')
+        V.check('move_exact', moved == ticks and stayed == ticks and 'a' not in last.get('src', {}).get('g1', {}) and
+                ('src', 'g1', 'a', 'cell') not in e.process_paths and ('dst', 'g1', 'a', 'cell') in e.process_paths,
+                lambda: ('_move with the source path (g1, a): after %r time units the moved cell shows n=%r and its sibling n=%r (both expected %d); '
+                         'processes run at %r' % (spec['run'], moved, stayed, ticks, sorted(e.process_paths)), last))
+    except Exception as ex:
+        V.check('move_exact', False, ('_move with a source path of two keys raised', type(ex).__name__, str(ex)[:200]))
+    return {'viol': list(V), 'evals': V.evals, 'nontrivial': True, 'classes': ['deep_move'], 'summary': {}}
+
+
 def gen(r, tier, i):
+    if i % 250 == 17:
+        return {'family': 'deep_move', 'ts': r.choice([0.5, 1.0]), 'at': r.choice([0.0, 1.0, 2.0]), 'run': r.choice([4.0, 5.0]),
+                'occupied': r.random() < 0.5}
     if r.random() < 0.04:
         # the engine side of the same operations (a key that is vacated and filled again, updates in flight):
         # C10's structural workload, judged here on "the operations are carried out" and on the ledgers of the
@@ -123,6 +172,8 @@ def cell_shadow(key, n, deriver, tags=None):
 
 
 def run(spec):
+    if spec.get('family') == 'deep_move':
+        return run_deep_move(spec)
     if spec.get('family') == 'engine':
         from vmon.checks import c10
         from vmon.util import harvest
